@@ -194,14 +194,5 @@ func (rm *RegistrationManager) VerifDumpFull() string {
 	return strings.Join(lines, "; ")
 }
 
-// VerifStateKey digests the shared registry state (for explorer state keys).
-func (rm *RegistrationManager) VerifStateKey() uint64 {
-	h := uint64(1469598103934665603)
-	for _, c := range []byte(rm.VerifDumpFull()) {
-		h = (h ^ uint64(c)) * 1099511628211
-	}
-	return h ^ rm.registeredDecoys.m.VerifState()<<7
-}
-
 // VerifHandleRegUpdates runs the real pipeline.
 func (rm *RegistrationManager) VerifSetWorkers(n int) { rm.IngestWorkerCount = n }
